@@ -630,4 +630,74 @@ theorem exists_admissible_reachable (v : Gen.Variant) (k : Sink) (s : (famOfVari
     ∃ budget, Admissible (famOfVariant v) k cap (Model.call (famOfVariant v) k s src last budget) :=
   exists_admissible_variant v k s (variant_inv_reachable v s hr) src hb last cap hcap
 
+/-! ## Non-vacuity and sharpness -/
+
+/-- EUC-KR into 4 bytes of UTF-8, `last = true`: after `A`, `B` two bytes are free; the scheme stops
+before the lead byte `B0` (it asks for 3), and that stop is admissible.  Not stopping is *not*
+admissible here: the lead byte would be consumed and the end of the stream reports `Malformed`
+with only 2 bytes free for U+FFFD.  The theorem applies to this call. -/
+example :
+    let F := famOfVariant .eucKr
+    let r := Model.call F .utf8 F.init [0x41, 0x42, 0xB0] true (.full 2)
+    let u := Model.call F .utf8 F.init [0x41, 0x42, 0xB0] true .unlimited
+    r.res = .outputFull ∧ r.out = [0x41, 0x42] ∧ r.read = 2 ∧ r.stopNeed = 3 ∧ Admissible F .utf8 4 r ∧
+    u.res = .malformed 1 0 ∧ ¬ Admissible F .utf8 4 u ∧
+    (∃ budget, Admissible F .utf8 4 (Model.call F .utf8 F.init [0x41, 0x42, 0xB0] true budget)) := by
+  intro F r u
+  have hres : r.res = .outputFull := by decide
+  have hout : r.out = [0x41, 0x42] := by decide
+  have hneed : r.stopNeed = 3 := by decide
+  have hures : u.res = .malformed 1 0 := by decide
+  have huout : u.out = [0x41, 0x42] := by decide
+  refine ⟨hres, hout, by decide, hneed, ⟨by rw [hout]; decide, ?_, ?_⟩, hures, ?_, ?_⟩
+  · intro _; rw [hout, hneed]; decide
+  · intro l a h; rw [hres] at h; cases h
+  · intro h
+    have := h.2.2 1 0 hures
+    rw [huout] at this
+    revert this; decide
+  · exact exists_admissible_variant .eucKr .utf8 F.init (variantInv_init .eucKr) _ (by decide) true 4 (by decide)
+
+/-- **the hypothesis `minCap k ≤ cap` cannot be dropped**: gb18030 after `81 30 81 41` (the `41` is
+not a fourth byte: `Malformed(1, 2)`, the digit `30` is delayed and `81` is pending again) — a
+reachable state.  At the end of the stream, with a destination of 3 bytes of UTF-8, no stop
+decision is admissible: the flush cannot be refused (`pendNeed` = 3 bytes are free), it writes one
+byte, and then `Malformed` is reported with 2 bytes free (`eofNeed` = 0: no stop is justified). -/
+theorem gb18030_cap3_none :
+    let F := famOfVariant .gb18030
+    let s : GbSt := (Model.call F .utf8 F.init [0x81, 0x30, 0x81, 0x41] false .unlimited).st
+    s = ⟨.one 0, some 0x30⟩ ∧ Reach .gb18030 s ∧
+    ∀ budget, ¬ Admissible F .utf8 3 (Model.call F .utf8 s [] true budget) := by
+  intro F s
+  have hs : s = ⟨.one 0, some 0x30⟩ := rfl
+  refine ⟨hs, Reach.call .utf8 F.init [0x81, 0x30, 0x81, 0x41] false .unlimited Reach.init (by decide), ?_⟩
+  rw [hs]
+  have hmal : ∀ budget, budget.isZero = false → budget.dec.isZero = false →
+      ¬ Admissible F .utf8 3 (Model.call F .utf8 (⟨.one 0, some 0x30⟩ : GbSt) [] true budget) := by
+    intro budget h1 h2 h
+    have hres : (Model.call F .utf8 (⟨.one 0, some 0x30⟩ : GbSt) [] true budget).res = .malformed 1 0 := by
+      show (Model.call gbFam .utf8 (⟨.one 0, some 0x30⟩ : GbSt) [] true budget).res = .malformed 1 0
+      simp [Model.call, gbFam, run, h1, h2, gbCount]
+    have hout : (Model.call F .utf8 (⟨.one 0, some 0x30⟩ : GbSt) [] true budget).out = [0x30] := by
+      show (Model.call gbFam .utf8 (⟨.one 0, some 0x30⟩ : GbSt) [] true budget).out = [0x30]
+      simp [Model.call, gbFam, run, h1, h2]
+    have := h.2.2 1 0 hres
+    rw [hout] at this
+    revert this; decide
+  intro budget
+  cases budget with
+  | unlimited => exact hmal _ rfl rfl
+  | altAny => exact hmal _ rfl rfl
+  | full n =>
+    match n with
+    | 0 =>
+      intro h
+      have := h.2.1 (by decide)
+      revert this; decide
+    | 1 =>
+      intro h
+      have := h.2.1 (by decide)
+      revert this; decide
+    | n + 2 => exact hmal _ (by simp [Budget.isZero]) (by simp [Budget.isZero, Budget.dec])
+
 end EncodingRs.Thm.C06Exists
